@@ -119,7 +119,14 @@ def observe(case):
                     pass
     ev = {"ar": ar, "a": tagged(a), "b": tagged(b) if ar == 2 else {"i": 0}, "tab": tab, "res": {"i": 0}, "err": ""}
     try:
-        ev["res"] = call(fn, [to_arg(a, lazy)] + ([to_arg(b, lazy)] if ar == 2 else []))
+        if lazy == "coupled":
+            # the second operand is the duplicate `:` makes of the first (a copy that reads through the original)
+            from vyxal.helpers import deep_copy
+
+            la_ = to_arg(a, True)
+            ev["res"] = call(fn, [la_, deep_copy(la_)])
+        else:
+            ev["res"] = call(fn, [to_arg(a, lazy)] + ([to_arg(b, lazy)] if ar == 2 else []))
     except runner.TooBig:
         ev["tab"] = []  # not evaluated
     except common.CaseTimeout:
@@ -139,6 +146,39 @@ def case_fn(key):
             if e["fn"]:
                 _FN[e["key"]] = e["fn"]
     return _FN[key]
+
+
+_RANDOM = {}
+
+
+def uses_randomness(name, depth=3):
+    """static: the element's function (or something it calls, to `depth`) draws random numbers or reads input --
+    its scalar results are then not a function of the arguments and string leaves are not offered to it"""
+    import inspect
+    import re
+    import types
+    import vyxal.elements as E
+    import vyxal.helpers as H
+
+    if name in _RANDOM:
+        return _RANDOM[name]
+    _RANDOM[name] = False
+    fn = getattr(E, name, None) or getattr(H, name, None)
+    res = False
+    if isinstance(fn, types.FunctionType):
+        try:
+            src = inspect.getsource(fn)
+        except (OSError, TypeError):
+            src = ""
+        if re.search(r"\brandom\.|\binput\(|\bshuffle\b|time\.|datetime", src):
+            res = True
+        elif depth > 0:
+            for callee in set(re.findall(r"\b([A-Za-z_][A-Za-z0-9_]*)\(", src)):
+                if callee != name and (hasattr(E, callee) or hasattr(H, callee)) and uses_randomness(callee, depth - 1):
+                    res = True
+                    break
+    _RANDOM[name] = res
+    return res
 
 
 def scalars(rng, kind):
@@ -163,7 +203,7 @@ def main(tier):
     V = common.Verdicts(PID)
     common.import_repo()
     tb = table()
-    per = 16 if tier == "quick" else 200
+    per = 40 if tier == "quick" else 200
     cs = []
     for ent in tb["included"]:
         key, ar, kinds = ent["key"], ent["arity"], ent["kinds"]
@@ -183,6 +223,22 @@ def main(tier):
                 if shape == 3 and isinstance(a, list) and isinstance(b, list):
                     b = b[: len(a)] + [scalars(rng, rng.choice(kinds)) for _ in range(max(0, len(a) - len(b)))]
                 cs.append((key, 2, a, b, lazy))
+        # string leaves for EVERY element (a leaf call the element does not support leaves the case unevaluated),
+        # and a list paired with its own duplicate (eager, and lazy with the duplicate reading through the original)
+        for i in range(per // 2 if not uses_randomness(case_fn(key)) else 0):
+            depth = rng.choice([0, 1, 1, 2])
+            kk = ["str", "str", "int"]
+            if ar == 1:
+                cs.append((key, 1, rand_list(rng, depth, kk), None, i % 2 == 1))
+            else:
+                shape = i % 3
+                a = rand_list(rng, depth, kk) if shape != 1 else scalars(rng, "str")
+                b = rand_list(rng, depth, kk) if shape != 0 else scalars(rng, "str")
+                cs.append((key, 2, a, b, i % 2 == 1))
+        if ar == 2:
+            for i in range(max(2, per // 8)):
+                a = rand_list(rng, rng.choice([0, 1]), kinds)
+                cs.append((key, 2, a, a, "coupled" if i % 2 == 0 else False))
     with common.Scratch(PID) as s:
         mc = tlc.model_check(s, "MC_Vector", cfg="MC_Vector", workers=16)
         if not mc["ok"]:
